@@ -18,19 +18,39 @@ from .common import Ctx, MachineryError
 
 WRAP = """---- MODULE {name} ----
 EXTENDS {base}
+{defs}
 VARIABLE z__
-Init__ == z__ = 0
-Next__ == UNCHANGED z__
+Init__ == z__ = 0{initc}
+Next__ == UNCHANGED <<z__{varsc}>>
 Inv__ == {op}
 ====
 """
 
 
+def _defs(defs: str) -> str:
+    return "\n".join(l for l in defs.splitlines() if not l.startswith("\\* @"))
+
+
+def _initc(defs: str) -> str:
+    """A spec with VARIABLES: put `\\* @init Init` and `\\* @vars vars` lines into `defs`."""
+    for l in defs.splitlines():
+        if l.startswith("\\* @init "):
+            return " /\\ " + l[len("\\* @init "):].strip()
+    return ""
+
+
+def _varsc(defs: str) -> str:
+    for l in defs.splitlines():
+        if l.startswith("\\* @vars "):
+            return ", " + l[len("\\* @vars "):].strip()
+    return ""
+
+
 def _run(ctx: Ctx, base: str, op: str, consts: dict[str, str], env: dict[str, str], tag: str, modules: list[str],
-         timeout: int = 1800, heap: str = "6g") -> tlc.TlcResult:
+         timeout: int = 1800, heap: str = "6g", defs: str = "") -> tlc.TlcResult:
     name = f"P3_{tag}"
     cfg = tlc.cfg_text(init="Init__", next_="Next__", constants=consts, invariants=["Inv__"])
-    d = tlc.stage(ctx.scratch, f"p3_{base}_{tag}", modules, {f"{name}.tla": WRAP.format(name=name, base=base, op=op),
+    d = tlc.stage(ctx.scratch, f"p3_{base}_{tag}", modules, {f"{name}.tla": WRAP.format(name=name, base=base, op=op, defs=_defs(defs), initc=_initc(defs), varsc=_varsc(defs)),
                                                               f"{name}.cfg": cfg})
     r = tlc.check(d, name, workers=1, timeout=timeout, env=env, deadlock=False, heap=heap, light=False)
     if "Inv__" in r.violated:
@@ -41,11 +61,11 @@ def _run(ctx: Ctx, base: str, op: str, consts: dict[str, str], env: dict[str, st
 
 
 def generate(ctx: Ctx, base: str, consts: dict[str, str], modules: list[str] | None = None, tag: str = "gen",
-             op: str = "Generate", env: dict[str, str] | None = None) -> tuple[Path, list]:
+             op: str = "Generate", env: dict[str, str] | None = None, defs: str = "") -> tuple[Path, list]:
     cases = ctx.scratch / f"{base}_{tag}_cases.json"
     e = {"CASES_FILE": str(cases)}
     e.update(env or {})
-    _run(ctx, base, op, consts, e, tag, modules or [base])
+    _run(ctx, base, op, consts, e, tag, modules or [base], defs=defs)
     if not cases.exists():
         raise MachineryError(f"{base}!{op} wrote no cases")
     return cases, json.loads(cases.read_text())
@@ -55,10 +75,10 @@ _B = re.compile(r'^"B\|(\d+)\|(.*)"$')
 
 
 def judge(ctx: Ctx, base: str, consts: dict[str, str], cases: Path, results: Path, modules: list[str] | None = None,
-          tag: str = "judge", op: str = "Judge", env: dict[str, str] | None = None) -> dict[int, set[str]]:
+          tag: str = "judge", op: str = "Judge", env: dict[str, str] | None = None, defs: str = "") -> dict[int, set[str]]:
     e = {"CASES_FILE": str(cases), "RESULTS_FILE": str(results)}
     e.update(env or {})
-    r = _run(ctx, base, op, consts, e, tag, modules or [base])
+    r = _run(ctx, base, op, consts, e, tag, modules or [base], defs=defs)
     bad: dict[int, set[str]] = {}
     for line in r.out.splitlines():
         m = _B.match(line)
